@@ -438,7 +438,7 @@ class _Lower(ast.NodeTransformer):
 
     def visit_Assign(self, st: ast.Assign):
         r = self._split(st)
-        if r is None and isinstance(st.value, ast.Call):
+        if r is None and isinstance(st.value, (ast.Call, ast.Subscript, ast.Attribute, ast.Tuple)):
             r = self._hoist_nested(st, st, "value")
         return r if r is not None else st
 
@@ -453,7 +453,7 @@ class _Lower(ast.NodeTransformer):
         if st.value is None:
             return st
         r = self._split(st)
-        if r is None and isinstance(st.value, ast.Call):
+        if r is None and isinstance(st.value, (ast.Call, ast.Subscript, ast.Attribute, ast.Tuple)):
             r = self._hoist_nested(st, st, "value")
         return r if r is not None else st
 
